@@ -162,6 +162,13 @@ def main():
     # ------------------------------------------------------------ corruption: exhaustive single-byte changes (oracle)
     n_corrupt = 0
     targets = [e for e in enc_blocks if len(e[1]) in (0, 1, 10)][:3] + [e for e in enc_blocks if len(e[1]) in (244, 243)][: (3 if big else 1)]
+    # ... and blocks whose byte sum is below 256 / exactly a multiple of 256: a corrupted checksum byte can then read 0x00 (or the whole
+    # field 0x0000), which no decoder may take for "no checksum to verify"
+    for lv, ld in (([1, 0, 1, 1, 1, 0, 0, 1], b""), ([2, 0, 0, 0, 0, 0, 0, 0], b"\x01"), ([1, 0, 1, 1, 1, 0, 0, 1], b"\x7b")):
+        try:
+            targets.append((lv, ld, SecsIBlock(mk_header(lv), ld).encode()))
+        except Exception:  # noqa: BLE001
+            pass
     for vals, data, raw in targets:
         for pos in range(len(raw)):
             for val in range(256):
